@@ -1,7 +1,7 @@
 (* Correspondence cases of C04 / C13 / C14 (harness "crdt"). *)
 From stdpp Require Import gmap.
 From Coq Require Import ZArith.
-From Emitter Require Import Model.Lww Model.BanStore.
+From Emitter Require Import Model.Lww Model.Sender Model.BanStore.
 From Emitter Require Import Lib.Base.
 Local Open Scope N_scope.
 
@@ -30,7 +30,7 @@ Inductive case :=
 | CBan (ops : list bop)
 (* payloads (durable?, content) queued with Send on one link of mesh's gossipSender, then what
    deliver() handed to the connection *)
-| CSender (ps : list (bool * dump)) (sent : list dump) (panicked : bool).
+| CSender (ps : list (bool * dump)) (live : dump) (sent : list dump) (panicked : bool).
 
 Definition universe : list N := [0; 1; 2; 100; 101; 102; 200; 201].
 
@@ -152,28 +152,13 @@ Definition bstep (s : bst) (o : bop) : bst :=
         (book s && bools_eqb res [existsb (N.eqb 100) (banned s); existsb (N.eqb 101) (banned s)])
   end.
 
-(* mesh sender with State.Merge; merging a durable state INTO a pending payload panics in the
-   type assertion of Volatile.Merge / Durable.Merge *)
-Inductive pend := PNone | PSome (durable : bool) (m : replica) | PPanic.
-Definition snd_step (p : pend) (x : bool * dump) : pend :=
-  let m : replica := list_to_map (snd x) in
-  match p with
-  | PPanic => PPanic
-  | PNone => PSome (fst x) m
-  | PSome pd pm =>
-    if fst x then PPanic              (* Volatile.Merge and Durable.Merge both assert other.( *Volatile) *)
-    else match snd (state_merge pm m) with
-         | None => PNone
-         | Some d => PSome (fst x) d     (* the argument object, reduced to a delta *)
-         end
-  end.
-
+(* mesh sender with the swarm's payload adapter (Model/Sender.v slot_send) *)
 Definition covers_all (ps : list (bool * dump)) (sent : list dump) : bool :=
   let joined (l : list dump) : replica := fold_left (fun a d => lww_merge a (list_to_map d)) l ∅ in
-  let want := joined (map snd ps) in
+  let want := joined (map snd (filter (fun x => negb (fst x)) ps)) in
   let got := joined sent in
-  forallb (fun k => Z.eqb (e_add (fetch want k)) (e_add (fetch got k))
-                    && Z.eqb (e_del (fetch want k)) (e_del (fetch got k))) universe.
+  forallb (fun k => Z.leb (e_add (fetch want k)) (e_add (fetch got k))
+                    && Z.leb (e_del (fetch want k)) (e_del (fetch got k))) universe.
 
 Definition check (c : case) : N :=
   match c with
@@ -187,19 +172,15 @@ Definition check (c : case) : N :=
   | CBan ops =>
     let s := fold_left bstep ops (BSt bs0 bs0 true [] true) in
     bit (bok s) 1 |+| bit (book s) 2
-  | CSender ps sent panicked =>
-    let model := fold_left snd_step ps PNone in
-    let corr := match model with
-                | PPanic => panicked
-                | PNone => negb panicked && match sent with [] => true | _ => false end
-                | PSome _ m => negb panicked && match sent with [d] => dump_matches m d | _ => false end
+  | CSender ps live sent panicked =>
+    let model := fold_left (fun sl x => slot_send sl (fst x) (list_to_map (snd x))) ps SNone in
+    let corr := negb panicked &&
+                match slot_payload (list_to_map live) model, sent with
+                | None, [] => true
+                | Some m, [d] => dump_matches m d
+                | _, _ => false
                 end in
+    (* nothing queued is lost: what is sent carries at least every update of every queued delta *)
     let oracle := negb panicked && covers_all ps sent in
-    bit corr 1
-    (* the property fails on the implementation: known class F8 (two or more payloads coalesced,
-       no panic) or F9 (panic), each only when the faithful model fails the same way *)
-    |+| (if oracle then 0
-         else if corr && panicked then 32
-         else if corr && (1 <? N.of_nat (length ps)) then 16
-         else 4)
+    bit corr 1 |+| bit oracle 4
   end.
